@@ -212,6 +212,95 @@ fn gen_conn_many(rng: &mut Rng, h: usize, reverse: bool, gated: bool) -> String 
     format!("conn {} {}", rng.below(2), ops.join(";"))
 }
 
+/// A response frame as the scripted server writes it with `b` (RESULT opcode).
+fn raw_response(stream: i16, body: &[u8]) -> Vec<u8> {
+    response_frame(stream, body)
+}
+
+/// ONE response frame delivered in several writes, with client-side steps in between: another (written, unanswered)
+/// request is abandoned and its orphan notice processed, a new request is submitted, a future is polled - while the
+/// reader holds a partly received frame. Bodies from empty to larger than the reader's 8 KiB buffer. Every frame is
+/// well formed and answers an outstanding request, so the connection has to stay up and every answer has to arrive
+/// byte for byte.
+fn gen_conn_split(rng: &mut Rng) -> String {
+    let n = rng.range(2, 7) as usize;
+    let mut ops: Vec<String> = vec!["s".to_owned(); n];
+    // request k is written on stream k; `alive` = written, unanswered, not abandoned
+    let mut unanswered: Vec<usize> = (0..n).collect();
+    let mut abandoned: Vec<bool> = vec![false; n];
+    let mut submitted = n;
+    let rounds = rng.range(1, 4);
+    for _ in 0..rounds {
+        if unanswered.is_empty() {
+            break;
+        }
+        let b = unanswered.remove(rng.below(unanswered.len() as u64) as usize);
+        let len = match rng.below(10) {
+            0 => 0usize,
+            1..=5 => rng.range(1, 40) as usize,
+            6..=7 => rng.range(100, 700) as usize,
+            8 => rng.range(8100, 8300) as usize,
+            _ => rng.range(9000, 20000) as usize,
+        };
+        // the body the server sends for b: its tag first, so that the answer is recognisably b's own
+        let mut body = (b as u64).to_be_bytes().to_vec();
+        body.truncate(len.min(8));
+        if len > 8 {
+            body.extend(rng.bytes(len - 8));
+        }
+        let frame = raw_response(b as i16, &body);
+        // 1..3 cut points: inside the header, at its end, inside the body
+        let mut cuts: Vec<usize> = Vec::new();
+        for _ in 0..rng.range(1, 3) {
+            cuts.push(match rng.below(4) {
+                0 => rng.range(1, 8) as usize,
+                1 => 9,
+                _ => rng.range(1, frame.len() as i64 - 1).max(1) as usize,
+            });
+        }
+        cuts.push(frame.len());
+        cuts.sort_unstable();
+        cuts.dedup();
+        let mut from = 0usize;
+        for (ci, &to) in cuts.iter().enumerate() {
+            if to <= from || to > frame.len() {
+                continue;
+            }
+            ops.push(format!("b{}", crate::util::hex(&frame[from..to])));
+            from = to;
+            if ci + 1 < cuts.len() {
+                // what happens on the client while the frame is half received
+                for _ in 0..rng.range(1, 3) {
+                    match rng.below(10) {
+                        0..=5 => {
+                            let others: Vec<usize> = unanswered.iter().copied().filter(|k| !abandoned[*k]).collect();
+                            if let Some(&a) = others.get(rng.below(others.len().max(1) as u64) as usize) {
+                                abandoned[a] = true;
+                                ops.push(format!("{}{}", if rng.chance(1, 4) { "C" } else { "c" }, a));
+                            }
+                        }
+                        6..=7 => {
+                            ops.push("s".into());
+                            unanswered.push(submitted);
+                            abandoned.push(false);
+                            submitted += 1;
+                        }
+                        8 => ops.push(format!("p{}", rng.below(submitted as u64))),
+                        _ => {
+                            // submitted and dropped at once: it is written all the same, the server owes an answer
+                            ops.push("S".into());
+                            unanswered.push(submitted);
+                            abandoned.push(true);
+                            submitted += 1;
+                        }
+                    }
+                }
+            }
+        }
+    }
+    format!("conn {} {}", rng.below(2), ops.join(";"))
+}
+
 /// More than 1024 submissions behind a closed gate: the bounded submit channel fills up and callers park in
 /// `send().await` (`submitFull`; later `enqueue`, or `ChannelError` if the router ends first). And more than 1024
 /// stream ids orphaned for a second: the orphaner ends the router (`TooManyOrphanedStreamIds`).
@@ -290,6 +379,33 @@ pub fn generate(rng: &mut Rng, tier: Tier, emit: &mut dyn FnMut(String)) {
     gen_exhaustive(&calpha3, if quick { 4 } else { 5 }, "conn 1", emit);
     gen_exhaustive(&calpha3, if quick { 3 } else { 4 }, "conn 1 s;s", emit);
     gen_capacity_cases(rng, quick, emit);
+    // `WriteCoalescingDelay::Milliseconds`: the writer sleeps between looking at its queue; what it wrote reaches the
+    // server only when a wake-up finds the queue empty (virtual time: `t<ms>`)
+    let calpha_ms = ["s", "S", "c0", "C1", "r0", "r1", "t1", "t3", "x"];
+    gen_exhaustive(&calpha_ms, if quick { 4 } else { 5 }, "conn m3", emit);
+    for _ in 0..(if quick { 300 } else { 5_000 }) {
+        let ms = *rng.pick(&[1u64, 2, 5, 50, 1000]);
+        let mut ops: Vec<String> = Vec::new();
+        let mut submitted = 0u64;
+        for _ in 0..rng.range(3, 14) {
+            match rng.below(10) {
+                0..=3 => {
+                    for _ in 0..rng.range(1, 4) {
+                        ops.push("s".into());
+                        submitted += 1;
+                    }
+                }
+                4 | 5 => ops.push(format!("t{}", *rng.pick(&[1u64, ms - ms / 2, ms, ms + 1, 2 * ms, 1500]))),
+                6 | 7 => ops.push(format!("r{}", rng.below(submitted + 1))),
+                8 => ops.push(format!("{}{}", if rng.bool() { "c" } else { "C" }, rng.below(submitted + 1))),
+                _ => ops.push("S".into()),
+            }
+        }
+        emit(format!("conn m{} {}", ms, ops.join(";")));
+    }
+    for _ in 0..(if quick { 2_500 } else { 40_000 }) {
+        emit(gen_conn_split(rng));
+    }
     // all schedules that start with two submissions (so that answers can be out of order)
     gen_exhaustive(&calpha, if quick { 3 } else { 4 }, "conn 1 s;s", emit);
     // many requests in flight before the server answers anything: the highest stream id in flight crosses the
@@ -648,6 +764,8 @@ pub(crate) struct ConnSim {
     /// every whole response frame the server has sent: (addressee = tag of the unanswered request frame that
     /// the server had read on that stream at that moment, stream, body)
     pub sent: Vec<(Option<Vec<u8>>, i16, Vec<u8>)>,
+    /// flags and opcode of the entries of `sent` that came from raw bytes (`b<hex>`): (index in `sent`, flags, opcode)
+    pub raw_hdr: Vec<(usize, u8, u8)>,
     /// raw bytes sent with `b` since the last frame boundary
     pub raw_tail: Vec<u8>,
     /// set when the server closed the stream or sent a frame on a stream nobody waits on
@@ -658,6 +776,11 @@ pub(crate) struct ConnSim {
     /// the reader may be blocked by this test's own doing (an event channel with one slot that nobody drains): the
     /// "answered / closed, so it must complete / break" oracles do not apply
     pub reader_may_block: bool,
+    /// Some(why) as soon as the schedule contains anything that entitles the connection to break: the peer closing,
+    /// an ill-formed frame, a frame on a stream that is not outstanding, failing writes, keep-alive, time (orphan
+    /// threshold). While it is None every byte the server sent is part of a well-formed frame answering an
+    /// outstanding request (or an event-stream frame nobody listens to), and the connection has to stay up.
+    pub may_break: Option<String>,
 }
 
 pub(crate) fn tag_of(body: &[u8]) -> String {
@@ -682,10 +805,22 @@ impl ConnSim {
     /// `events`: `Some(mode)` = an event sender whose channel is drained (0), has lost its receiver (1), or has one
     /// slot and is never drained (2).
     pub fn new_ev_mode(write_coalescing: bool, keepalive: Option<(Duration, Duration)>, events: Option<u8>) -> Self {
+        Self::new_full(write_coalescing, keepalive, events, None)
+    }
+
+    /// The writer coalesces with `WriteCoalescingDelay::Milliseconds(ms)`.
+    pub fn new_coalescing_ms(ms: u64) -> Self {
+        Self::new_full(true, None, None, Some(ms))
+    }
+
+    fn new_full(write_coalescing: bool, keepalive: Option<(Duration, Duration)>, events: Option<u8>, coalescing_ms: Option<u64>) -> Self {
         let (client, server) = tokio::io::duplex(1 << 22);
         let gate = Arc::new(Mutex::new(Gate::default()));
         let gated = Gated { inner: client, gate: gate.clone() };
-        let (conn, broken_rx, events_rx) = if let Some(mode) = events {
+        let (conn, broken_rx, events_rx) = if let Some(ms) = coalescing_ms {
+            let (c, b) = RawConnection::spawn_with_coalescing(gated, None, None, Some(ms));
+            (c, b, None)
+        } else if let Some(mode) = events {
             let (c, b, e) = RawConnection::spawn_with_events_mode(
                 gated,
                 keepalive.map(|k| k.0),
@@ -702,6 +837,13 @@ impl ConnSim {
             events_rx,
             events_seen: Vec::new(),
             reader_may_block: events == Some(2),
+            may_break: if keepalive.is_some() {
+                Some("keep-alive is on".to_owned())
+            } else if events.is_some() {
+                Some("an event sender is registered".to_owned())
+            } else {
+                None
+            },
             conn: Arc::new(conn),
             broken_rx,
             broken: None,
@@ -714,6 +856,7 @@ impl ConnSim {
             outcomes: Vec::new(),
             sent: Vec::new(),
             raw_tail: Vec::new(),
+            raw_hdr: Vec::new(),
             must_break: None,
         }
     }
@@ -853,6 +996,13 @@ impl ConnSim {
             let frame: Vec<u8> = self.raw_tail.drain(..9 + len).collect();
             let stream = i16::from_be_bytes([frame[2], frame[3]]);
             let to = self.unanswered.iter().position(|(s, _)| *s == stream).map(|i| self.unanswered.remove(i).1);
+            let known_opcode = matches!(frame[4], 0x00 | 0x02 | 0x03 | 0x06 | 0x08 | 0x0C | 0x0E | 0x10);
+            if frame[0] != 0x84 || !known_opcode {
+                self.may_break.get_or_insert_with(|| "the server sent an ill-formed frame header".to_owned());
+            } else if stream >= 0 && to.is_none() {
+                self.may_break.get_or_insert_with(|| format!("the server sent a frame on stream {} that is not outstanding", stream));
+            }
+            self.raw_hdr.push((self.sent.len(), frame[1], frame[4]));
             self.sent.push((to, stream, frame[9..].to_vec()));
         }
     }
@@ -880,6 +1030,7 @@ impl ConnSim {
                     // `Connection::trigger_keepalive` (the pool calls it on a STATUS_CHANGE DOWN event)
                     'h' => self.conn.trigger_keepalive(),
                     'w' => {
+                        self.may_break.get_or_insert_with(|| "the client's writes fail".to_owned());
                         let mut g = self.gate.lock().unwrap();
                         g.fail = true;
                         if let Some(w) = g.waker.take() {
@@ -887,6 +1038,7 @@ impl ConnSim {
                         }
                     }
                     _ => {
+                        self.may_break.get_or_insert_with(|| "the server closed the connection".to_owned());
                         if self.server.take().is_some() && self.broken.is_none() {
                             self.must_break = Some("the server closed the connection".to_owned());
                         }
@@ -930,6 +1082,7 @@ impl ConnSim {
                     return true; // might be allocated to a frame the server has not seen: not "unsolicited"
                 }
                 self.sent.push((None, s, body.to_vec()));
+                self.may_break.get_or_insert_with(|| format!("the server sent a frame on stream {} that nobody waits on", s));
                 if self.broken.is_none() {
                     self.must_break = Some(format!("the server sent a frame on stream {} that nobody waits on", s));
                 }
@@ -946,7 +1099,10 @@ impl ConnSim {
             'c' | 'p' | 'r' | 't' => {
                 let Ok(n) = arg.parse::<usize>() else { return false };
                 match c {
-                    't' => tokio::time::advance(Duration::from_millis(n as u64)).await,
+                    't' => {
+                        self.may_break.get_or_insert_with(|| "time passes (orphan threshold)".to_owned());
+                        tokio::time::advance(Duration::from_millis(n as u64)).await
+                    }
                     'c' => self.cancel(n),
                     'p' => self.poll_req(n, ctx),
                     _ => {
@@ -997,6 +1153,15 @@ impl ConnSim {
         self.poll_broken();
         // ORACLE (C10): the peer closed / sent an unsolicited frame ⇒ the connection is reported broken; and once
         // it is broken no request is left hanging
+        // ORACLE (C02/C10): a connection does not break while every byte the server sent belongs to a well-formed
+        // frame that answers an outstanding request - however the frames were cut into pieces and whatever the
+        // callers did in between
+        if let (None, Some(kind), true) = (&self.may_break, &self.broken, self.raw_tail.is_empty()) {
+            ctx.fail(format!(
+                "the connection broke ({}) although the server only sent whole, well-formed answers to outstanding requests",
+                kind
+            ));
+        }
         if let (Some(why), None, false) = (&self.must_break, &self.broken, self.reader_may_block) {
             ctx.fail(format!("{} but the connection was not broken", why));
         }
@@ -1059,6 +1224,25 @@ fn run_conn(wc: bool, ops: &[&str], ctx: &mut Ctx) -> String {
     })
 }
 
+/// `conn m<ms> …`: `WriteCoalescingDelay::Milliseconds(ms)`; the schedule ends with two sleeps' worth of virtual time.
+fn run_conn_ms(ms: u64, ops: &[&str], ctx: &mut Ctx) -> String {
+    if ms == 0 || ms > 1000 || ops.iter().any(|o| o.starts_with(['g', 'G', 'w', 'u', 'b'])) {
+        return "bad-case".to_owned();
+    }
+    let rt = runtime();
+    rt.block_on(async {
+        let mut sim = ConnSim::new_coalescing_ms(ms);
+        settle().await;
+        let t = format!("t{}", ms);
+        for op in ops.iter().copied().chain([t.as_str(), t.as_str()]) {
+            if !sim.op(op, ctx).await {
+                return "bad-case".to_owned();
+            }
+        }
+        sim.finish(ctx).await
+    })
+}
+
 pub fn run(case: &str, ctx: &mut Ctx) -> String {
     let w: Vec<&str> = case.split_whitespace().collect();
     fn ops<'a>(s: Option<&&'a str>) -> Vec<&'a str> {
@@ -1069,6 +1253,10 @@ pub fn run(case: &str, ctx: &mut Ctx) -> String {
         Some("conn") if (w.len() == 2 || w.len() == 3) && (w[1] == "0" || w[1] == "1") => {
             run_conn(w[1] == "1", &ops(w.get(2)), ctx)
         }
+        Some("conn") if w.len() == 3 && w[1].starts_with('m') => match w[1][1..].parse::<u64>() {
+            Ok(ms) => run_conn_ms(ms, &ops(w.get(2)), ctx),
+            Err(_) => "bad-case".to_owned(),
+        },
         // the same schedule language, judged by the oracles only (the model's line is the constant `connx`)
         Some("connx") if (w.len() == 2 || w.len() == 3) && (w[1] == "0" || w[1] == "1") => {
             if run_conn(w[1] == "1", &ops(w.get(2)), ctx) == "bad-case" { "bad-case".to_owned() } else { "connx".to_owned() }
